@@ -246,6 +246,9 @@ class AbstractAst:
             try:
                 var_module = self.modules[var_type]
                 class_ = getattr(var_module, var_type)
+                if not isinstance(class_, type):
+                    # a function of the module must not be called to create a variable
+                    raise TypeError(var_type)
                 var = class_()
             except KeyError:
                 raise RTAMTException('The type {} does not seem to be imported.'.format(var_type))
